@@ -191,3 +191,69 @@ for _ui, _uo in ((None, None), ('m', 'm'), ('cm', 'm'), (None, 'm')):
              name=GRP + '::Group._compute_root_scale_factors[connected input, units in=%s out=%s]' % (_ui, _uo),
              canaries=([('unit conversion taken in the wrong direction', ('factor, offset = unit_conversion(units_out, units_in)\n\n                    # Send both', 'offset, factor = unit_conversion(units_out, units_in)\n\n                    # Send both'), 'post', GRP + '::Group._compute_root_scale_factors')] if differ else
                        [('a1 is ref instead of ref - ref0', ('a1 = ref - ref0\n\n                if units_in is None', 'a1 = ref\n\n                if units_in is None'), 'post', GRP + '::Group._compute_root_scale_factors')] if _ui == 'm' else []))
+
+
+# ---------------------------------------------------------------------------------------------
+# System._apply_output_solver_options, body of the loop that recomputes the scaling flags from one output's metadata
+# (mechanically extracted fragment '@loopbody(res_ref)').  The flags decide which scaling arrays the root vectors
+# allocate: a flag that stays False although the metadata asks for scaling makes the vectors transfer unscaled values
+# as if they were scaled, so converged outputs would depend on ref/ref0 (the statement of C08).
+SYSF = 'openmdao/core/system.py'
+MD = 'metadata'
+
+
+def _anyne(x, c):
+    return '((is_scalar({x}) and {x} != {c}) or (not is_scalar({x}) and any({x}[i] != {c} for i in range(n))))'.format(x=x, c=c)
+
+
+def native_flags(vals, np, om):
+    import types
+    from pyvc.native_helpers import A, Fl
+
+    def cv(v):
+        if v is None:
+            return None
+        if isinstance(v, dict) and '__arr__' in v:
+            return A(v)
+        return Fl(v)
+    sv = vals['subsys']
+    sub = types.SimpleNamespace(**{k: bool(sv[k]) for k in ('_has_output_scaling', '_has_output_adder', '_has_resid_scaling', '_has_bounds')})
+    md = {k: cv(v) for k, v in vals['metadata'].items()}
+    lens = [len(v) for v in md.values() if hasattr(v, '__len__')]
+    return dict(subsys=sub, metadata=md, abs_name='c.y'), dict(n=lens[0] if lens else 1)
+
+
+def sample_flags(rng):
+    n = rng.choice([1, 2, 3])
+    fr = lambda k: {'__frac__': [k, 8]}
+
+    def val(neutral, arr_ok=True):
+        r = rng.random()
+        if r < 0.35:
+            return fr(neutral)
+        if r < 0.6 or not arr_ok:
+            return fr(rng.choice([-8, 4, 16, 24]))
+        return {'__arr__': [fr(rng.choice([neutral, neutral, 4, 16, -8])) for _ in range(n)], 'shape': [n], 'dtype': 'real'}
+    md = [['ref', val(8)], ['ref0', val(0)], ['res_ref', rng.choice([None, val(8)])], ['lower', rng.choice([None, fr(-80)])], ['upper', rng.choice([None, fr(80)])]]
+    flags = {k: rng.random() < 0.3 for k in ('_has_output_scaling', '_has_output_adder', '_has_resid_scaling', '_has_bounds')}
+    return {'subsys': {'__obj__': 'System', 'id': 0, 'attrs': flags}, 'metadata': {'__dict__': md}, 'abs_name': 'c.y'}
+
+
+for _ref, _ref0, _rr in ((Real(), Real(), None), (Arr('n'), Real(), Real()), (Real(), Arr('n'), Arr('n')), (Arr('n'), Arr('n'), Real())):
+    contract(SYSF + '::System._apply_output_solver_options@loopbody(res_ref)', ['C08'],
+             dict(subsys=Obj('System', _has_output_scaling=OneOf(False, True), _has_output_adder=OneOf(False, True),
+                             _has_resid_scaling=OneOf(False, True), _has_bounds=OneOf(False, True)),
+                  metadata=DictT({'ref': _ref, 'ref0': _ref0, 'res_ref': _rr, 'lower': OneOf(None, Real()), 'upper': OneOf(None, Real())}),
+                  abs_name='c.y'),
+             requires=['n >= 1'] if any(isinstance(x_, Arr) for x_ in (_ref, _ref0, _rr)) else [],
+             ensures=["iff(subsys._has_output_scaling, old(subsys._has_output_scaling) or %s or %s)" % (_anyne(MD + "['ref']", '1'), _anyne(MD + "['ref0']", '0')),
+                      # the adder flag follows ref0 alone, whatever ref is
+                      "iff(subsys._has_output_adder, old(subsys._has_output_adder) or %s)" % _anyne(MD + "['ref0']", '0'),
+                      "iff(subsys._has_resid_scaling, old(subsys._has_resid_scaling) or (%s['res_ref'] is not None and %s))" % (MD, _anyne(MD + "['res_ref']", '1')),
+                      "iff(subsys._has_bounds, old(subsys._has_bounds) or %s['lower'] is not None or %s['upper'] is not None)" % (MD, MD)],
+             modifies=['subsys._has_output_scaling', 'subsys._has_output_adder', 'subsys._has_resid_scaling', 'subsys._has_bounds'],
+             native=native_flags, sampler=sample_flags,
+             name=SYSF + '::System._apply_output_solver_options[flags from one output: ref=%s, ref0=%s, res_ref=%s]' % (
+                 type(_ref).__name__, type(_ref0).__name__, type(_rr).__name__),
+             canaries=[('adder flag not set when ref is also non-trivial', ("subsys._has_output_adder |= ref0 != 0.0", "subsys._has_output_adder |= (ref0 != 0.0 and ref == 1.0)"), 'post', SYSF + '::System._apply_output_solver_options')]
+             if isinstance(_ref, Real) and isinstance(_ref0, Real) else [])
